@@ -175,6 +175,12 @@ def drives(quick):
         dict(name="4term_two_idle", dev="cross4", cur={"top": 1.5, "bottom": -1.5, "source": 0.0, "drain": 0.0}, A=0.3, opts=dict(dt_init=1e-2, adaptive=False)),
         dict(name="4term_timedep_partial", dev="cross4", cur="timedep4", A=0.1, opts=dict(dt_init=5e-3, adaptive=False)),
     ]
+    # the same triangulation with other site positions (smoothing moves the interior sites only) and another
+    # coherence length (the mesh is stored in units of xi), solved in the same process as the plain ones
+    d += [
+        dict(name="2term_smoothed_same_triangles", dev="bar", dev_kw=dict(smooth=40), cur={"source": 4.0, "drain": -4.0}, A=0.3, opts=dict(dt_init=1e-2, adaptive=False)),
+        dict(name="3term_other_xi", dev="bar3", dev_kw=dict(xi=0.4, max_edge_length=1.25), cur={"source": 3.0, "drain": -1.0, "top": -2.0}, A=0.2, opts=dict(dt_init=1e-2, adaptive=False)),
+    ]
     # "converted from the user's units": prefixes of the current unit and of the device's length unit that do not cancel
     d += [
         dict(name="units_nA_uT", dev="bar3", cur={"source": 700.0, "drain": -300.0, "top": -400.0}, A=300.0, opts=dict(dt_init=1e-2, adaptive=False, current_units="nA", field_units="uT")),
@@ -207,7 +213,7 @@ def run_level(ctx, stop_first=False):
     for dr in drives(ctx.quick):
         dkey = (dr["dev"], repr(sorted(dr.get("dev_kw", {}).items())))
         if dkey not in devs:
-            devs[dkey] = zoo.make_device(dr["dev"], ctx.rng, max_edge_length=1.0, **dr.get("dev_kw", {}))
+            devs[dkey] = zoo.make_device(dr["dev"], ctx.rng, **dict(dict(max_edge_length=1.0), **dr.get("dev_kw", {})))
         else:
             ctx.count("solves_on_a_reused_device")
         dev = devs[dkey]
@@ -218,6 +224,14 @@ def run_level(ctx, stop_first=False):
         opts = runs.options(solve_time=0.12, save_every=3, output_file=out, progress_interval=10**9, **dr["opts"])
         try:
             sol = tdgl.solve(dev, opts, applied_vector_potential=dr["A"], terminal_currents=cur)
+        except RuntimeError as e:
+            # a well-posed problem of the zoo that runs on the unchanged tree: a run that dies leaves no recorded
+            # step at which the balance could hold
+            rp = dict(drive=dr["name"], error=f"{type(e).__name__}: {str(e)[:160]}")
+            ctx.fail("run-raised", f"drive {dr['name']}: the run raised {rp['error']}", rp)
+            first = first or dict(key="run-raised", what=rp["error"], **rp)
+            ctx.case((dr["name"], "raised"))
+            continue
         except ValueError as e:
             rp = dict(drive=dr["name"], currents=(dr["cur"] if isinstance(dr["cur"], dict) else str(dr["cur"])), error=str(e)[:160])
             ctx.fail("balanced-rejected", f"balanced terminal currents rejected: {e}", rp)
